@@ -43,6 +43,9 @@ def write_tree(spec, sub=None) -> str:
         os.makedirs(os.path.dirname(p), exist_ok=True)
         with open(p, "w") as f:
             f.write(src)
+    for link_rel, target_rel in spec.get("symlinks", []):
+        # a directory reachable under a second name (never a cycle: the caller picks a link location outside the target)
+        os.symlink(os.path.join(root, target_rel), os.path.join(root, link_rel), target_is_directory=True)
     return os.path.realpath(root)
 
 
